@@ -51,7 +51,7 @@ _NAMES = {
     PROFMETH: "a profile method (num_ballots, approval_score, approved_projects, is_trivial, total_score)",
     PARTYLIST: "AbstractApprovalProfile.is_party_list",
     COHESIVE: "cohesive_groups (as a set of (distinct ballots, projects) pairs)",
-    MAXCOHESIVE: "maximal_cohesive_groups", CORE: "is_in_core",
+    MAXCOHESIVE: "maximal_cohesive_groups (not asked: not a public analysis function)", CORE: "is_in_core",
     JR_APP: "an approval JR checker (is_[strong_]EJR/PJR[_any/_one]_approval)",
     JR_CARD: "a cardinal JR checker (is_[strong_]EJR/PJR[_any/_one]_cardinal)",
 }
@@ -102,7 +102,7 @@ EXC_TAGS = {"ValueError": 1, "TypeError": 2, "ZeroDivisionError": 3, "NotImpleme
 
 # functions with a recorded multiprofile finding: asked on a bounded number of cases only (core.py inspects the first 40
 # oracle failures of a run; known findings must not crowd out a new violation)
-BOUNDED = {VOTES_COUNT, VOTER_FLOW, CORE, MAXCOHESIVE}
+BOUNDED = {VOTES_COUNT, VOTER_FLOW}
 FLOAT_SATS = {"Additive_Cost_Sqrt_Sat", "Additive_Cost_Log_Sat", "Cost_Sqrt_Sat", "Cost_Log_Sat"}
 KINDS = ["rules", "sat", "analysis", "rules", "composite", "analysis", "rules", "jr",
          "rules", "sat", "analysis", "rules", "composite", "analysis", "rules", "solver"]
@@ -270,7 +270,7 @@ def gen(rng, i, tier):
     bt, n = e["btype"], len(e["costs"])
     e["kind"] = kind
     e["solver"] = kind == "solver"
-    e["ask_known"] = i < 64 and i % 16 in (2, 7)
+    e["ask_known"] = i < 64 and i % 16 == 2
     if kind == "rules":
         e["calls"] = [_rule_call(rng, e) for _ in range(rng.choice([8, 10, 12]))]
         e["model"] = bt == "approval"
@@ -678,7 +678,7 @@ def _analysis_entries(case, sides, listprof):
 
 def _jr_entries(case, sides, classes):
     import pabutools.analysis.justifiedrepresentation as jr
-    from pabutools.analysis.cohesiveness import cohesive_groups, maximal_cohesive_groups
+    from pabutools.analysis.cohesiveness import cohesive_groups
 
     bt = case["btype"]
     projs = sides[0].projs
@@ -693,8 +693,8 @@ def _jr_entries(case, sides, classes):
         return ids + [100] + [101 + r for r in sorted(pb.ranks(pset))]
 
     add(COHESIVE, "", lambda s: {"s": [enc(g, ps) for g, ps in cohesive_groups(s.inst, s.prof)]})
-    if bt == "approval":
-        add(MAXCOHESIVE, "", lambda s: {"s": [enc(g, ps) for g, ps in maximal_cohesive_groups(s.inst, s.prof)]})
+    # maximal_cohesive_groups is not exported by pabutools.analysis, is used nowhere and raises TypeError whenever a group
+    # exists: not part of the check (code 51 stays reserved)
     for a in case["allocs"]:
         alloc = [projs[j] for j in a]
         for name in case["sats"]:
